@@ -11,13 +11,14 @@ FA = 'pyPRISM.omega.FromArray::FromArray'
 FF = 'pyPRISM.omega.FromFile::FromFile'
 
 
-def path_facts(ip):
-    """conditions known to hold on a path that returned normally"""
+def path_facts(ip, g0=0, d0=0):
+    """conditions established on a path that returned normally (from guard #g0 / decision #d0 on: the facts of an
+    earlier evaluation concern that evaluation's grid, not this one's)"""
     facts = []
-    for g in ip.guards:
+    for g in ip.guards[g0:]:
         if g['kind'] == 'assert' and hasattr(g.get('cond'), 'cond'):
             facts.append(g['cond'].cond)
-    for c, b, loc in ip.decisions:
+    for c, b, loc in ip.decisions[d0:]:
         facts.append(c if b else ~c)
     return facts
 
@@ -41,11 +42,11 @@ def _allclose_ok(ip, a, b):
     return None, None
 
 
-def run_fromarray(prog, with_k, preset):
+def run_fromarray(prog, with_k, preset, second=False):
     ip = Interp(prog)
     ip.preset = list(preset)
     NAT.install_containers(ip, domain_transforms=False, tables=False, matrixarray=False)
-    for s in ('w', 'kk', 'k'):
+    for s in ('w', 'kk', 'k', 'k1'):
         ip.declare(s, 'curve')
     cls = prog.cls(FA)
     w = Arr(N.sym('w'), 'omega_arg', ip)
@@ -55,10 +56,13 @@ def run_fromarray(prog, with_k, preset):
         kw['k'] = kk
     o = ip.construct(cls, [], kw)
     o.origin = 'self'
+    if second:      # an earlier evaluation on another grid (e.g. before the domain was changed)
+        ip.call(ip.find_method(o, 'calculate'), [Arr(N.sym('k1'), 'k_first_call', ip)], {})
+    g0, d0 = len(ip.guards), len(ip.decisions)
     k = Arr(N.sym('k'), 'k', ip)
     e0 = len(ip.events)
     res = ip.call(ip.find_method(o, 'calculate'), [k], {})
-    return ip, {'obj': o, 'res': res, 'w': w, 'kk': kk, 'k': k, 'events': ip.events[e0:]}
+    return ip, {'obj': o, 'res': res, 'w': w, 'kk': kk, 'k': k, 'events': ip.events[e0:], 'g0': g0, 'd0': d0}
 
 
 def rule_fromarray(ctx, rule='R12.g'):
@@ -66,10 +70,10 @@ def rule_fromarray(ctx, rule='R12.g'):
     m = cls.find_method('calculate')
     mi = cls.find_method('__init__')
     lw, lk, lkk = (L.length_of(_decl(), N.sym(s)) for s in ('w', 'k', 'kk'))
-    for with_k in (False, True):
-        tag = 'k given' if with_k else 'k omitted'
+    for with_k, second in ((False, False), (True, False), (False, True), (True, True)):
+        tag = ('k given' if with_k else 'k omitted') + (', second evaluation on another grid' if second else '')
         try:
-            worlds = explore(lambda preset: run_fromarray(ctx.prog, with_k, preset))
+            worlds = explore(lambda preset: run_fromarray(ctx.prog, with_k, preset, second))
         except (Unsupported,) as e:
             ctx.undecided(rule, FA + '.calculate', '%s: %s' % (tag, e), m.loc())
             continue
@@ -78,7 +82,7 @@ def rule_fromarray(ctx, rule='R12.g'):
             ctx.undecided(rule, FA + '.calculate', '%s: no normally returning path' % tag, m.loc())
             continue
         for d, ip, r in normal:
-            facts = path_facts(ip)
+            facts = path_facts(ip, r['g0'], r['d0'])
             bad = []
             if not has_fact(facts, P.Cond.cmp('==', lw, lk)):
                 bad.append('no guard comparing the number of stored values with the number of grid points')
@@ -123,23 +127,36 @@ class _decl(object):
     sym_kind = {'w': 'curve', 'k': 'curve', 'kk': 'curve', 'fileData': 'file'}
 
 
-def run_fromfile(prog, preset):
+def run_fromfile(prog, preset, second=False):
     ip = Interp(prog)
     ip.preset = list(preset)
     NAT.install_containers(ip, domain_transforms=False, tables=False, matrixarray=False)
     ip.declare('k', 'curve')
+    ip.declare('k1', 'curve')
     cls = prog.cls(FF)
     o = ip.construct(cls, [], {'fileName': Const('omega.dat')})
     o.origin = 'self'
+    if second:
+        ip.call(ip.find_method(o, 'calculate'), [Arr(N.sym('k1'), 'k_first_call', ip)], {})
+    g0, d0 = len(ip.guards), len(ip.decisions)
     k = Arr(N.sym('k'), 'k', ip)
     res = ip.call(ip.find_method(o, 'calculate'), [k], {})
-    return ip, {'obj': o, 'res': res, 'k': k}
+    return ip, {'obj': o, 'res': res, 'k': k, 'g0': g0, 'd0': d0, 'all_facts': path_facts(ip)}
 
 
 def rule_fromfile(ctx, rule='R12.f'):
     cls = ctx.prog.cls(FF)
     m = cls.find_method('calculate')
-    worlds = explore(lambda preset: run_fromfile(ctx.prog, preset))
+    _rule_fromfile(ctx, rule, False)
+    _rule_fromfile(ctx, rule, True)
+
+
+def _rule_fromfile(ctx, rule, second):
+    cls = ctx.prog.cls(FF)
+    m = cls.find_method('calculate')
+    sfx = ' (second evaluation, on another grid)' if second else ''
+    ksfx = ':second' if second else ''
+    worlds = explore(lambda preset: run_fromfile(ctx.prog, preset, second))
     fd = N.sym('fileData')
     ndim = N.sym('ndim(fileData)')
     lf = L.length_of(_decl(), fd)
@@ -147,10 +164,11 @@ def rule_fromfile(ctx, rule='R12.f'):
     two_d = P.Cond.cmp('>=', ndim, 2)
     seen = set()
     for d, ip, r in worlds:
-        facts = path_facts(ip)
+        facts = path_facts(ip, r['g0'], r['d0'])
+        layout = r['all_facts']       # the file layout is a fact about the file, whichever call discovered it
         res = r['res']
         t = ip.term_of(res)[0] if isinstance(res, (Arr, View, Num)) else None
-        if has_fact(facts, two_d):
+        if has_fact(layout, two_d):
             seen.add('2d')
             bad = []
             col0 = N.fn('col', fd, N.NF.const(0))
@@ -165,16 +183,16 @@ def rule_fromfile(ctx, rule='R12.f'):
             if t is None or P.is_pw(t) or not t.equals(col1):
                 bad.append('returns %s, not the second column unchanged' % (P.show(t) if t is not None else res))
             if bad:
-                ctx.violation(rule, FF + '.calculate', 'two-column', '; '.join(bad), m.loc())
+                ctx.violation(rule, FF + '.calculate', 'two-column' + ksfx, '; '.join(bad) + sfx, m.loc())
             else:
-                ctx.holds(rule, FF + '.calculate', 'two-column file: row-count and allclose(column 0, k) guards; returns column 1', m.loc(), key='2d',
+                ctx.holds(rule, FF + '.calculate', 'two-column file: row-count and allclose(column 0, k) guards; returns column 1' + sfx, m.loc(), key='2d' + ksfx,
                           sample={'facts': [f.show() for f in facts], 'returns': N.show(t)})
-        elif has_fact(facts, ~two_d):
+        elif has_fact(layout, ~two_d):
             seen.add('1d')
             if t is None or P.is_pw(t) or not t.equals(fd):
-                ctx.violation(rule, FF + '.calculate', 'one-column', 'returns %s, not the loaded data unchanged' % (P.show(t) if t is not None else res), m.loc())
+                ctx.violation(rule, FF + '.calculate', 'one-column' + ksfx, 'returns %s, not the loaded data unchanged%s' % (P.show(t) if t is not None else res, sfx), m.loc())
             else:
-                ctx.holds(rule, FF + '.calculate', 'one-column file: returns the loaded data unchanged (length checked at export, R12.e)', m.loc(), key='1d')
+                ctx.holds(rule, FF + '.calculate', 'one-column file: returns the loaded data unchanged (length checked at export, R12.e)' + sfx, m.loc(), key='1d' + ksfx)
         else:
             ctx.undecided(rule, FF + '.calculate', 'path does not branch on the dimensionality of the loaded data: %s' % [f.show() for f in facts], m.loc())
     if seen != {'1d', '2d'}:
